@@ -47,7 +47,7 @@ class Ref:
 
 class HeapObj:
     """kind: 'list' | 'set' | 'dict' -> val is a V ; 'obj' -> fields dict, cls python class ; 'stream' -> fields"""
-    __slots__ = ('kind', 'val', 'fields', 'cls', 'frozen')
+    __slots__ = ('kind', 'val', 'fields', 'cls', 'frozen', 'field_types')
 
     def __init__(self, kind, val=None, fields=None, cls=None):
         self.kind = kind
@@ -55,10 +55,12 @@ class HeapObj:
         self.fields = fields
         self.cls = cls
         self.frozen = False
+        self.field_types = None     # declared field types (from the StateShape), for havoc of fields holding constants
 
     def copy(self):
         h = HeapObj(self.kind, self.val, dict(self.fields) if self.fields is not None else None, self.cls)
         h.frozen = self.frozen
+        h.field_types = self.field_types
         return h
 
 
@@ -262,6 +264,7 @@ class Engine:
         self.int_bound_cache = {}
         self._q_cache = {}
         self._abs_cache = {}
+        self._atom_keep = {}
 
     # ------------------------------------------------------------------------------------------------ terms
 
@@ -383,6 +386,137 @@ class Engine:
         ty = self.ty_of(v)
         return V(self.term(v, ty, st), ty)
 
+    # ------------------------------------------------------------------------------------------------ sequence terms
+
+    def mk_concat(self, *ts):
+        """concatenation in a canonical shape: flattened, without empty operands"""
+        flat = []
+        for t in ts:
+            if z3.is_app(t) and t.decl().kind() == z3.Z3_OP_SEQ_CONCAT:
+                flat.extend(self._concat_args(t))
+            elif z3.is_app(t) and t.decl().kind() == z3.Z3_OP_SEQ_EMPTY:
+                continue
+            else:
+                flat.append(t)
+        if not flat:
+            return z3.Empty(ts[0].sort())
+        # adjacent slices of the same sequence that touch are one slice; a slice that is everything is the sequence
+        merged = []
+        for t in flat:
+            if merged and self._is_extract(t) and self._is_extract(merged[-1]) and t.arg(0).eq(merged[-1].arg(0)) and \
+                    z3.simplify(merged[-1].arg(1) + merged[-1].arg(2) - t.arg(1)).eq(z3.IntVal(0)):
+                p_ = merged.pop()
+                merged.append(z3.SubSeq(p_.arg(0), p_.arg(1), z3.simplify(p_.arg(2) + t.arg(2))))
+            else:
+                merged.append(t)
+        flat = []
+        for t in merged:
+            if self._is_extract(t) and z3.simplify(t.arg(1)).eq(z3.IntVal(0)) and \
+                    z3.simplify(t.arg(2) - self.norm_len(t.arg(0))).eq(z3.IntVal(0)):
+                flat.extend(self._concat_args(t.arg(0)) if self._is_concat(t.arg(0)) else [t.arg(0)])
+            else:
+                flat.append(t)
+        if len(flat) == 1:
+            return flat[0]
+        return z3.Concat(*flat)
+
+    @staticmethod
+    def _is_extract(t):
+        return z3.is_app(t) and t.decl().kind() == z3.Z3_OP_SEQ_EXTRACT
+
+    @staticmethod
+    def _is_concat(t):
+        return z3.is_app(t) and t.decl().kind() == z3.Z3_OP_SEQ_CONCAT
+
+    def _concat_args(self, t):
+        out = []
+        for c in t.children():
+            if z3.is_app(c) and c.decl().kind() == z3.Z3_OP_SEQ_CONCAT:
+                out.extend(self._concat_args(c))
+            elif z3.is_app(c) and c.decl().kind() == z3.Z3_OP_SEQ_EMPTY:
+                continue
+            else:
+                out.append(c)
+        return out
+
+    @staticmethod
+    def _known_len(t):
+        if z3.is_app(t):
+            k = t.decl().kind()
+            if k == z3.Z3_OP_SEQ_UNIT:
+                return 1
+            if k == z3.Z3_OP_UNINTERPRETED and t.decl().name().startswith('to_be') and t.decl().name()[5:].isdigit():
+                return int(t.decl().name()[5:])
+        return None
+
+    def norm_len(self, t, st=None):
+        """len(t) as arithmetic over the lengths of the atoms of t, where that is certain"""
+        if z3.is_app(t):
+            k = t.decl().kind()
+            if k == z3.Z3_OP_SEQ_CONCAT:
+                return z3.simplify(sum((self.norm_len(c, st) for c in t.children()), z3.IntVal(0)))
+            if k == z3.Z3_OP_SEQ_UNIT:
+                return z3.IntVal(1)
+            if k == z3.Z3_OP_SEQ_EMPTY:
+                return z3.IntVal(0)
+            kl = self._known_len(t)
+            if kl is not None:
+                return z3.IntVal(kl)
+            if k == z3.Z3_OP_SEQ_EXTRACT and st is not None:
+                b0, o0, l0 = t.arg(0), t.arg(1), t.arg(2)
+                if self.entails(st, z3.And(o0 >= 0, l0 >= 0, o0 + l0 <= self.norm_len(b0, st))):
+                    return l0
+        return z3.Length(t)
+
+    def mk_extract(self, base, off, ln, st=None):
+        """base[off : off+ln] in a canonical shape: a slice of a slice is a slice of the underlying sequence when the inner
+        range is provably inside the outer one (checked against the path condition)"""
+        off = z3.simplify(off) if isinstance(off, z3.ExprRef) else z3.IntVal(off)
+        ln = z3.simplify(ln) if isinstance(ln, z3.ExprRef) else z3.IntVal(ln)
+        if z3.is_app(base) and base.decl().kind() == z3.Z3_OP_SEQ_CONCAT:
+            # skip leading operands of known length that lie entirely before the slice
+            ops = self._concat_args(base)
+            skipped = 0
+            while len(ops) > 1:
+                k = self._known_len(ops[0])
+                if k is None:
+                    break
+                new_off = z3.simplify(off - k)
+                ok = (z3.is_int_value(new_off) and new_off.as_long() >= 0) or \
+                     (st is not None and not z3.is_int_value(new_off) and self.entails(st, off >= k))
+                if not ok:
+                    break
+                off = new_off
+                ops = ops[1:]
+                skipped += k
+            # a slice that consists exactly of leading operands of known length is their concatenation
+            if z3.is_int_value(off) and off.as_long() == 0 and z3.is_int_value(ln):
+                want, got, take = ln.as_long(), 0, []
+                for o_ in ops:
+                    k = self._known_len(o_)
+                    if k is None or got + k > want:
+                        break
+                    take.append(o_)
+                    got += k
+                    if got == want:
+                        return take[0] if len(take) == 1 else z3.Concat(*take)
+            # a slice inside the first operand is a slice of it; a slice from inside the first operand to the very end is
+            # the rest of the first operand followed by the other operands
+            if st is not None and len(ops) > 1:
+                l0 = self.norm_len(ops[0], st)
+                if self.entails(st, z3.And(off >= 0, ln >= 0, off + ln <= l0)):
+                    return self.mk_extract(ops[0], off, ln, st)
+                total = z3.simplify(sum((self.norm_len(o_, st) for o_ in ops), z3.IntVal(0)))
+                if z3.simplify(off + ln - total).eq(z3.IntVal(0)) and self.entails(st, z3.And(off >= 0, off <= l0)):
+                    head = self.mk_extract(ops[0], off, z3.simplify(l0 - off), st)
+                    return self.mk_concat(head, *ops[1:])
+            base = ops[0] if len(ops) == 1 else z3.Concat(*ops)
+        if st is not None and z3.is_app(base) and base.decl().kind() == z3.Z3_OP_SEQ_EXTRACT:
+            b0, o0, l0 = base.arg(0), base.arg(1), base.arg(2)
+            if self.entails(st, z3.And(off >= 0, ln >= 0, off + ln <= l0, o0 >= 0)):
+                return z3.SubSeq(b0, z3.simplify(o0 + off), ln)
+        return z3.SubSeq(base, off, ln)
+
     # ------------------------------------------------------------------------------------------------ solver
 
     def _solver(self, timeout_ms=None):
@@ -404,72 +538,90 @@ class Engine:
         return r, s
 
     def hard_for_pruning(self, e):
-        """quantified, or using sequence operations (z3 is slow to find *models* with them; pruning only needs
-        quick refutations, and dropping hypotheses is always sound for pruning)"""
-        k = e.get_id()
-        c = self._q_cache.get(k)
-        if c is not None:
-            return c[0]
-        todo = [e]
-        seen = set()
-        found = False
-        while todo and not found:
-            x = todo.pop()
-            i = x.get_id()
-            if i in seen:
-                continue
-            seen.add(i)
-            if z3.is_quantifier(x):
-                found = True
-            elif z3.is_app(x):
-                dk = x.decl().kind()
-                if z3.Z3_OP_SEQ_UNIT <= dk <= z3.Z3_OP_SEQ_FOLDLI and dk not in (z3.Z3_OP_SEQ_LENGTH, z3.Z3_OP_SEQ_NTH, z3.Z3_OP_SEQ_EMPTY):
-                    found = True
-                else:
-                    todo.extend(x.children())
-        self._q_cache[k] = (found, e)       # keep e alive: ast ids are reused after collection
-        return found
+        """quantified formulas are left out of pruning / entailment pre-checks (dropping hypotheses is always sound
+        there); everything else is abstracted by abstract_seq"""
+        from .inst import _contains_quantifier
+        return _contains_quantifier(e)
 
     def has_quantifier(self, e):
         return self.hard_for_pruning(e)
 
     def ground(self, formulas):
-        """the quantifier-free part of a list of hypotheses (dropping hypotheses is always sound for pruning)"""
-        return [f for f in formulas if isinstance(f, z3.ExprRef) and not self.has_quantifier(f)]
+        """the quantifier-free part of a list of hypotheses (dropping hypotheses is always sound for pruning);
+        conjunctions are split first so that one hard conjunct does not take its siblings with it"""
+        out = []
+        todo = [f for f in formulas if isinstance(f, z3.ExprRef)]
+        while todo:
+            f = todo.pop()
+            if z3.is_and(f):
+                todo.extend(f.children())
+            elif not self.has_quantifier(f):
+                out.append(f)
+        return out
 
     def abstract_seq(self, e, side):
-        """replace seq.len / seq.nth by uninterpreted functions (every model of e yields one of the result, so a
-        refutation of the abstraction is a refutation of e); used for pruning checks only"""
+        """arithmetic/propositional abstraction of a quantifier-free formula for pruning and entailment pre-checks:
+        seq.len becomes arithmetic over abstract lengths (len(a ++ b) = len a + len b, len of an in-range slice = its
+        length), seq.nth an uninterpreted function, and every other sequence-building term an opaque constant (the same
+        term - the same constant).  Every model of e yields one of the abstraction, so a refutation of the abstraction is
+        a refutation of e."""
         k = e.get_id()
         c = self._abs_cache.get(k)
         if c is not None:
             side.extend(c[1])
             return c[0]
-        # collect len/nth subterms, innermost first
-        found = []
-        seen = set()
-
-        def walk(x):
-            i = x.get_id()
-            if i in seen or not z3.is_app(x):
-                return
-            seen.add(i)
-            for ch in x.children():
-                walk(ch)
-            if x.decl().kind() in (z3.Z3_OP_SEQ_LENGTH, z3.Z3_OP_SEQ_NTH):
-                found.append(x)
-        walk(e)
-        pairs = []
         myside = []
-        for x in found:
-            kids = [z3.substitute(ch, *pairs) if pairs else ch for ch in x.children()]
-            if x.decl().kind() == z3.Z3_OP_SEQ_LENGTH:
-                r = z3.Function('len!abs', kids[0].sort(), z3.IntSort())(kids[0])
-                myside.append(r >= 0)
+        memo = {}
+        CONSTR = (z3.Z3_OP_SEQ_CONCAT, z3.Z3_OP_SEQ_UNIT, z3.Z3_OP_SEQ_EXTRACT, z3.Z3_OP_SEQ_AT, z3.Z3_OP_SEQ_REPLACE,
+                  z3.Z3_OP_SEQ_MAP, z3.Z3_OP_SEQ_MAPI, z3.Z3_OP_SEQ_REPLACE_ALL)
+
+        def atom(t):
+            """opaque constant standing for a sequence-building term"""
+            key = 'seq!atom!' + str(abs(hash(t.sexpr())))
+            self._atom_keep.setdefault(key, t)
+            return z3.Const(key, t.sort())
+
+        def abs_len(t):
+            if z3.is_app(t):
+                kk = t.decl().kind()
+                if kk == z3.Z3_OP_SEQ_CONCAT:
+                    return sum((abs_len(ch) for ch in t.children()), z3.IntVal(0))
+                if kk == z3.Z3_OP_SEQ_UNIT:
+                    return z3.IntVal(1)
+                if kk == z3.Z3_OP_SEQ_EMPTY:
+                    return z3.IntVal(0)
+            r_ = z3.Function('len!abs', t.sort(), z3.IntSort())(go(t))
+            myside.append(r_ >= 0)
+            if z3.is_app(t) and t.decl().kind() == z3.Z3_OP_SEQ_EXTRACT:
+                lb = abs_len(t.arg(0))
+                o2, l2 = go(t.arg(1)), go(t.arg(2))
+                myside.append(z3.Implies(z3.And(o2 >= 0, l2 >= 0, o2 + l2 <= lb), r_ == l2))
+            return r_
+
+        def go(x):
+            i = x.get_id()
+            if i in memo:
+                return memo[i][0]
+            if not z3.is_app(x) or x.num_args() == 0:
+                r = x
             else:
-                r = z3.Function('nth!abs', kids[0].sort(), z3.IntSort(), x.sort())(kids[0], kids[1])
-            pairs.append((x, r))
-        r = z3.substitute(e, *pairs) if pairs else e
+                dk = x.decl().kind()
+                if dk == z3.Z3_OP_SEQ_LENGTH:
+                    r = abs_len(x.arg(0))
+                elif dk == z3.Z3_OP_SEQ_NTH:
+                    a0, a1 = go(x.arg(0)), go(x.arg(1))
+                    r = z3.Function('nth!abs', a0.sort(), z3.IntSort(), x.sort())(a0, a1)
+                elif dk in CONSTR:
+                    r = atom(x)
+                else:
+                    kids = [go(ch) for ch in x.children()]
+                    if all(a_.eq(b_) for a_, b_ in zip(kids, x.children())):
+                        r = x
+                    else:
+                        r = z3.substitute(x, *[(o_, n_) for o_, n_ in zip(x.children(), kids) if not o_.eq(n_)])
+            memo[i] = (r, x)
+            return r
+        r = go(e)
         self._abs_cache[k] = (r, myside, e)
         side.extend(myside)
         return r
@@ -495,7 +647,7 @@ class Engine:
         from .inst import _contains_quantifier
         return _contains_quantifier(e)
 
-    def entails(self, st, goal, timeout_ms=150):
+    def entails(self, st, goal, timeout_ms=600):
         """True only if the quantifier-free part of the path condition certainly implies goal (the goal itself is kept
         even if it mentions sequence constructions)"""
         return self.check_ground(list(st.pc), timeout_ms, keep=[z3.Not(goal)]) == z3.unsat
